@@ -9,6 +9,7 @@
    pumpsmooth <A B C> (floats)                                                    -> a b c d qbar hbar (floats)
    closecv <hs he q> (p/q)                                                        -> <close T|F> <open T|F>
    closepump <A hs he q> (p/q)                                 -> <close repaired> <open repaired> <close as coded> <power close> <power open> <power close repaired> <power open repaired>
+   tracker <v0> <f<v>|r ...>   (ControlChangeTracker for one target)                 -> changed flag after every op
    norev <q p/q>                                                                  -> ok|fail
 -/
 import WntrModel.Model.LinkRows
@@ -158,6 +159,16 @@ def handle (line : String) : String :=
         showB (closePowerPumpRepaired refHtol refQtol RowsC02.powerHmax hs he q) ++ " " ++
         showB (openPowerPumpRepaired refHtol RowsC02.powerHmax hs he)
     | _ => "bad-op"
+  | "tracker" :: init :: ops =>
+    -- values are natural numbers (status codes); ops: f<v> | r ; answer: changed flag after every op
+    match init.toNat? with
+    | some v0 =>
+      let step (acc : Tracked Nat × List String) (o : String) : Tracked Nat × List String :=
+        let op : TrackOp Nat := if o == "r" then .reset else .fire ((o.drop 1).toNat?.getD 0)
+        let t := acc.1.step op
+        (t, acc.2 ++ [showB t.changed])
+      " ".intercalate (ops.foldl step (Tracked.start v0, [])).2
+    | none => "bad-op"
   | ["norev", q] =>
     match parseRat q with
     | some q => if noReverseOk refQtol q then "ok" else "fail"
